@@ -75,6 +75,7 @@ type c16Ev struct {
 }
 
 type c16Case struct {
+	Long      int // length of an inserted stretch of event-less blocks (0: none)
 	Blocks    []c16Ev
 	Gaps      []int // tip advance per poll
 	RestartAt int
@@ -212,6 +213,36 @@ func c16Gen(rt *rapid.T) c16Case {
 			}
 			c.ForkStep, c.ForkAt = step, uint64(at)
 			c.ForkSuffix, _, _ = c16GenEvents(rt, nil, live, idx+100, at, n, 0xf0)
+		}
+	}
+	if c.ForkAt == 0 && n >= 3 && rapid.IntRange(0, 11).Draw(rt, "longQuietStretch") == 0 {
+		// thousands of L2 blocks without an event pass between two polls (a node that was down, a quiet chain): the
+		// stretch is sized so that the next event sits about 5000 or 10000 blocks after the block the next range starts from
+		p := rapid.IntRange(1, n-1).Draw(rt, "stretchAfterBlock") // the stretch follows block p
+		e0 := 0
+		for i := 1; i <= p; i++ {
+			if c.Blocks[i-1].Kind != 0 {
+				e0 = i
+			}
+		}
+		q := p + 1
+		for q < n && c.Blocks[q-1].Kind == 0 {
+			q++
+		}
+		k := rapid.SampledFrom([]int{5000, 5001, 10001, 10002}).Draw(rt, "stretchTarget") + e0 + 1 - q + rapid.SampledFrom([]int{-1, 0, 0, 0, 1}).Draw(rt, "stretchJitter")
+		if k > 0 {
+			blocks := append([]c16Ev{}, c.Blocks[:p]...)
+			blocks = append(blocks, make([]c16Ev, k)...)
+			c.Blocks = append(blocks, c.Blocks[p:]...)
+			sum := 0
+			for i, g := range c.Gaps {
+				sum += g
+				if sum > p || i == len(c.Gaps)-1 {
+					c.Gaps[i] += k
+					break
+				}
+			}
+			c.Long = k
 		}
 	}
 	return c
@@ -493,6 +524,9 @@ func TestC16(t *testing.T) {
 		}
 		if c.ForkAt != 0 {
 			rec.Class("with_l2_reorg")
+		}
+		if c.Long > 0 {
+			rec.Class("with_thousands_of_event_less_blocks_between_two_polls")
 		}
 		if c.Instant {
 			rec.Class("with_instant_finality_and_blocks_sealed_mid_poll")
